@@ -12,6 +12,15 @@ checks = {
  "C18": dict(design="4/C18",
    text="One inductive step of the real (*Pool).Get (token and position pools) from an arbitrary state satisfying the invariant, with block length, offset and the index of an earlier pointer as unconstrained 64-bit symbols (abstract arrays); obligations: bounds check cannot fail, result non-nil, result distinct from every earlier pointer, invariant re-established; base case NewPool(n) for every n>=1; library call sites pass positive sizes; concrete twin with writes through every pointer.",
    note="No bound on block size or number of requests (inductive); 64-bit wrap-around arithmetic. Witnesses with block sizes above 2048 cannot be allocated natively, so the unbounded runs are not replayed; the same harness restricted to sizes <= 2048 is replayed on every path. 'Writing through one never changes another' follows from pointer distinctness and Go's memory model (stated assumption)."),
+ "C02": dict(design="4/C02",
+   text="Bounded symbolic execution of parser.Parse followed by the printer on every input of the stated shapes; on every error-free path the printed chunks must equal the source byte for byte (chunks that alias the source at their own offset are identical terms, every other chunk - anything the printer invents or moves - is compared with the source bytes by an SMT query).",
+   note="Bounds: the shapes and lengths listed in the evidence (short raw inputs, open tags and lexical-mode prefixes + K symbolic bytes; corpus snippets with symbolic windows/trivia/lexeme holes where listed). Nothing is claimed for other inputs."),
+ "C04": dict(design="4/C04",
+   text="Bounded symbolic execution of parser.Parse; on every path with a tree, every token and free-floating token must alias the source at its recorded offsets, carry the lines of an independent non-forking line-count definition (SMT equality under the path condition: LF, CRLF, lone CR), be ordered and disjoint; on error-free paths tokens tile the source, free-floating tokens are contiguous with their owner and classified (whitespace/comment/doc-comment/open tag) and leaf values equal their token text.",
+   note="Bounds: as listed in the evidence. The end-of-input sentinel (Root.EndTkn, id 0, empty text) has no offsets and is exempt from the offset checks."),
+ "C06": dict(design="4/C06",
+   text="Bounded symbolic execution of parser.Parse with and without callback on the same path: sufficient malformedness conditions on the real lexer's token stream (unbalanced brackets, unterminated string/backquote/heredoc, last token cannot end a program) imply >= 1 reported error; zero errors imply a non-nil tree that tiles and re-prints the source; every error has a message, an in-range position with the reference line numbers (SMT), syntax errors select a token of the stream, errors arrive in source order; the nil-callback tree equals the callback tree (tokens, free-floating tokens, positions).",
+   note="Completeness of the malformedness oracle (every invalid program) is not claimed: the conditions are sufficient, not necessary. Bounds as listed in the evidence."),
 }
 na = {}
 ALL = ["C%02d" % i for i in range(1, 19)]
